@@ -99,7 +99,8 @@ def c09 (op : String) (args : List Sexp) : Verdict :=
         if modelBlocks.length != 4 * spec.1.length then .bad "model/spec block count mismatch" else
         if st.count != spec.2.length then .bad "model/spec pending mismatch" else
         if modelBlocks.length != ws.length then
-          .diff s!"model issues {modelBlocks.length} block writes, implementation {ws.length}"
+          -- the reference partition (written from the property statement) fixes the number of blocks
+          .oracle s!"the reference partition has {spec.1.length} blocks ({modelBlocks.length} writes), the encoder issued {ws.length} block writes"
         else match checkBlocks c.codec h.sync spec.1 ws is with
           | some e => .oracle e
           | none => .ok s!"enc/{c.codec}/blocks{min spec.1.length 5}/pending{min spec.2.length 2}"
